@@ -24,6 +24,24 @@ class PageListener(interpose.Listener):
             self.pages.append(rows[0][0] * self.page_size)
 
 
+class StreamError(Exception):
+    pass
+
+
+class BrokenStream:
+    """A readable binary stream that fails after its first chunk."""
+
+    def __init__(self, data):
+        self.data = data
+        self.n = 0
+
+    def read(self, size=-1):
+        self.n += 1
+        if self.n > 1:
+            raise StreamError('stream broke')
+        return self.data[:size if size and size > 0 else None]
+
+
 class ApiAdapter:
     """Abstract operation -> real API call on a cache object -> normalised result."""
 
@@ -42,6 +60,10 @@ class ApiAdapter:
             return R('Timeout')
         except interpose.sqlite3.Error as exc:
             return R(type(exc).__name__)
+        except (OSError, UnicodeError) as exc:
+            return R('OSError' if isinstance(exc, OSError) else type(exc).__name__)
+        except StreamError:
+            return R('StreamError')
 
     # ------------------------------------------------------------ results
     def _val(self, x):
@@ -92,7 +114,9 @@ class ApiAdapter:
             if name == 'set' and form == 1 and ttl is None and tag is None:
                 c[k] = pv
                 return R('true')
-            if form == 2 and type(pv) is bytes:
+            if form == 3 and type(pv) is bytes:
+                r = getattr(c, name)(k, BrokenStream(pv), expire=ttl, read=True, tag=tag)
+            elif form == 2 and type(pv) is bytes:
                 r = getattr(c, name)(k, io.BytesIO(pv), expire=ttl, read=True, tag=tag)
             else:
                 r = getattr(c, name)(k, pv, expire=ttl, tag=tag)
